@@ -6,5 +6,6 @@ int main(int argc, char **argv) {
     vf::install_crash_handler();
     RUN("async_programs", 1, true, scn::async_programs(o, R, o.cases));
     RUN("async_start_race", 2, true, scn::async_start_race(o, R, T, o.cases));
+    RUN("frame_owned_parties", 1, true, scn::frame_owned_parties(o, R, o.cases));
     return 0;
 }
